@@ -115,3 +115,58 @@ func H_C20_canon(budget, flags int) {
 	check(vsame(f2, f), "C20.idempotent")
 	vdigest(f)
 }
+
+// H_C20_marker(k, second): ordered list item whose number has k digits (every digit
+// a solver variable, no leading zero), delimiter '.' or ')', holding a paragraph and
+// a second child block after a blank line (second 0: paragraph, 1: fenced code,
+// 2: nested bullet list, 3: block quote). The continuation indent must be the full
+// marker width + 1 for every width 2..10.
+func H_C20_marker(k, second int) {
+	var m []byte
+	for i := 0; i < k; i++ {
+		d := nondetByte()
+		assume(classOK(d, 'D'))
+		if i == 0 && k > 1 {
+			assume(d != '0')
+		}
+		m = append(m, d)
+	}
+	if nondetBool() {
+		m = append(m, ')')
+	} else {
+		m = append(m, '.')
+	}
+	var ind []byte
+	for i := 0; i < len(m)+1; i++ {
+		ind = append(ind, ' ')
+	}
+	d := append(append([]byte(nil), m...), " a\n\n"...)
+	add := func(l string) {
+		d = append(d, ind...)
+		d = append(d, l...)
+		d = append(d, '\n')
+	}
+	switch second {
+	case 0:
+		add("b")
+	case 1:
+		add("```")
+		add("x")
+		add("```")
+	case 2:
+		add("- c")
+	default:
+		add("> c")
+	}
+	f := formatDoc(cloneBytes(d))
+	h1 := normHTML(renderHTML(cloneBytes(d)))
+	h2 := normHTML(renderHTML(cloneBytes(f)))
+	if !vsame(h1, h2) {
+		vnote("doc=" + string(d))
+		vnote("formatted=" + string(f))
+	}
+	check(vsame(h2, h1), "C20.meaning-preserved")
+	f2 := formatDoc(cloneBytes(f))
+	check(vsame(f2, f), "C20.idempotent")
+	vdigest(f)
+}
